@@ -71,10 +71,30 @@ Definition rm_pre_b (ind : ix) (s : tstate) : bool :=
                         && (Nat.eqb (length (fst ni)) 1 || fullinfo_b ind (snd ni)))
              (info (populate_m (contract_stats n false s))).
 
+Definition vof_b (P : list node) (nd : node) : bool := Nat.eqb (length nd) 1 || existsb (node_eqb nd) P.
+Fixpoint children_first_b (P : list node) (nodes : list (node * (node * node))) : bool :=
+  match nodes with
+  | [] => true
+  | (p, (l, r)) :: rest => vof_b P l && vof_b P r && children_first_b (p :: P) rest
+  end.
+Definition full2_b (i : ninfo) : bool :=
+  match i_legs i, i_involved i with Some _, Some _ => true | _, _ => false end.
+Definition rs_pre_b (ind : ix) (s : tstate) : bool :=
+  memb ind (removed (sliced s)) && nodupb (removed (sliced s))
+  && trk_flops s && trk_write s && trk_size s
+  && Z.ltb 0 (zget ind (szd n))
+  && forallb (fun j => memb j (concat (inputs n))) (output n)
+  && match traverse n s with
+     | Some nodes => npermb (map fst nodes) (map fst (children s)) && children_first_b [] nodes
+     | None => false
+     end
+  && forallb (fun c => node_eqb (nunion (fst (snd c)) (snd (snd c))) (fst c)) (children s)
+  && forallb (fun c => nmem (fst c) (info s)) (children s)
+  && forallb (fun ni => Nat.eqb (length (fst ni)) 1 || nmem (fst ni) (children s)) (info s).
+
 (* which primitives the preservation theorem covers at all *)
 Definition covered (p : prim) (s : tstate) : bool :=
   match p with
-  | PRestoreInd _ => false
   | PTotalFlops => trk_flops s
   | PTotalWrite => trk_write s
   | PMaxSize => trk_size s
@@ -93,7 +113,7 @@ Definition prim_pre_b (p : prim) (s : tstate) : bool :=
   | PMaxSize => trk_size s
   | PResetInds | PResetRecipes | PSortInds _ _ _ _ | PCoresClear | PCoreAdd _ => true
   | PRemoveInd ind _ => rm_pre_b ind s
-  | PRestoreInd _ => false
+  | PRestoreInd ind => rs_pre_b ind s
   end.
 Fixpoint pre_trace_b (tr : list prim) (s : tstate) : bool :=
   match tr with
